@@ -29,7 +29,7 @@ ASSUMPTIONS = ["a target within 1e-6 of the valid-region border or of a cell edg
                "RK steps whose stage positions leave the valid region are judged by the safety invariants only"]
 TIERS = {"quick": dict(runs=1500, budget_s=55, shrink=150),
          "thorough": dict(runs=150000, budget_s=900, shrink=250)}
-REQUIRED_PROBES = ["land_cancel", "out_of_grid_kill", "inactive", "diffusion", "channel_or_island", "rk_stage_outside"]
+REQUIRED_PROBES = ["land_cancel", "out_of_grid_kill", "inactive", "diffusion", "channel_or_island", "rk_stage_outside", "warm_start"]
 
 PROFILE = gen.profile(
     nsteps=(3, 40), p_reversed=0.2, p_land=0.9, p_islands=0.8, p_channel=0.4, p_subgrid=0.4, p_bathy_var=0.3,
@@ -42,11 +42,23 @@ PROFILE = gen.profile(
 
 
 def generate(seed: int, tier: str, idx: int) -> dict:
-    return gen.gen_scenario(seed, PROFILE)
+    s = stream(seed, "c09")
+    sc = gen.gen_scenario(seed, PROFILE)
+    if s.chance(0.3):
+        # the invariants must also hold across a warm start (a particle killed in the first step after the
+        # restart must not come back in the restarted run's records)
+        sc["output"]["numrec"] = s.randint(1, 3)
+        sc["output"]["period"] = s.pick([1, 1, 2])
+        sc.get("spell", {}).pop("period", None)
+        gen.make_restartable(sc)
+        sc["plan"] = {"warm": True}
+    return sc
 
 
 def execute(sc) -> Result:
     res = Result()
+    sc = dict(sc)
+    plan = sc.pop("plan", {})
     diffusion = bool(sc["tracker"].get("diffusion"))
     store: dict = {}
     monitor, ref = c01.make_monitor(sc, store)
@@ -55,145 +67,164 @@ def execute(sc) -> Result:
         run = driver.run_scenario(sc, d, monitors=[] if diffusion else [monitor], rng_seed=truth.dt_s(sc))
         account_run(res, run, sc)
         scheme = sc["tracker"].get("advection", "EF")
-        res.history_key = "|".join(map(str, (hash(str(sc["grid"].get("mask"))) % 99991, scheme, diffusion))) \
-            + "|" + abstract_history(run, sc)
-        v, foreign = crash_violation(ID, run, ANCHORS)
-        if v is not None:
-            res.add(v)
-        if foreign:
-            res.aborted_foreign += 1
-        rec = run.rec
-        mask = truth.mask_rho(sc)
-        if sc["grid"].get("mask", "open") != "open":
-            res.probes["channel_or_island"] += 1
-        if diffusion:
-            res.probes["diffusion"] += 1
-        # ---- safety invariants on every snapshot after the move and after the IBM
-        dead_since: dict[int, int] = {}
-        for s in rec.snaps:
-            if s["label"] not in ("tracker.post", "ibm.post", "output.pre", "forcing.post"):
-                continue
-            X, Y = s["vars"]["X"].astype(float), s["vars"]["Y"].astype(float)
-            alive = s["vars"]["alive"].astype(bool)
-            pid = s["vars"]["pid"]
-            res.feed(X, Y, alive)
-            fin = np.isfinite(X) & np.isfinite(Y)
-            if (alive & ~fin).any():
-                p = int(np.nonzero(alive & ~fin)[0][0])
-                res.add(Violation("C09.nonfinite", s["step"], f"{s['label']} pid {pid[p]}", (X[p], Y[p]), "finite"))
-                continue
-            ok = alive & fin
-            inside = np.zeros(len(X), dtype=bool)
-            inside[ok] = ref.in_valid(X[ok], Y[ok])
-            if (ok & ~inside).any():
-                p = int(np.nonzero(ok & ~inside)[0][0])
-                res.add(Violation("C09.outside", s["step"], f"{s['label']} pid {pid[p]} alive at ({X[p]:.6f},{Y[p]:.6f})",
-                                  "outside the valid region", truth.valid_region(sc)))
-            chk = ok & inside
-            chk[chk] = ~ref.near_tie(X[chk], Y[chk])
-            sea = np.ones(len(X), dtype=bool)
-            sea[chk] = ref.at_sea(X[chk], Y[chk])
-            if (~sea).any():
-                p = int(np.nonzero(~sea)[0][0])
-                res.add(Violation("C09.on_land", s["step"], f"{s['label']} pid {pid[p]} alive at ({X[p]:.6f},{Y[p]:.6f})",
-                                  "land cell", "sea cell"))
-            for q, a in zip(pid.tolist(), alive.tolist()):
-                if not a:
-                    dead_since.setdefault(int(q), s["step"])
-                elif q in dead_since:
-                    res.add(Violation("C09.resurrected", s["step"], f"{s['label']} pid {q}",
-                                      f"alive again (dead since step {dead_since[q]})", "dead stays dead"))
-        # ---- the decision of every step, diffusion off
-        pre = rec.snap_by_step("tracker.pre")
-        post = rec.snap_by_step("tracker.post")
-        xlo, xhi, ylo, yhi = truth.valid_region(sc)
-        killed_by_move: dict[int, int] = {}
-        for n in sorted(pre):
-            if n not in post or post[n]["n"] != pre[n]["n"]:
-                continue
-            a, b = pre[n]["vars"], post[n]["vars"]
-            X0, Y0, X1, Y1 = a["X"], a["Y"], b["X"], b["Y"]
-            alive0, active0 = a["alive"].astype(bool), a["active"].astype(bool)
-            inact = alive0 & ~active0
-            if inact.any():
-                res.probes["inactive"] += 1
-                moved = inact & ((X1 != X0) | (Y1 != Y0))
-                if moved.any():
-                    p = int(np.nonzero(moved)[0][0])
-                    res.add(Violation("C09.inactive_moved", n, f"pid {a['pid'][p]}", (X1[p], Y1[p]), (X0[p], Y0[p])))
-            lost = alive0 & ~b["alive"].astype(bool)
-            for q in a["pid"][lost].tolist():
-                killed_by_move.setdefault(int(q), n)
-            if lost.any():
-                res.probes["out_of_grid_kill"] += 1
-            if diffusion or n not in store:
-                continue
-            exp = store[n]
-            if not exp["inside"].all():
-                res.probes["rk_stage_outside"] += 1
-            # "RK2"/"RK4" name families: a decision is judged only where every named tableau of the order agrees
-            eps = 1e-6
-            clear_out = land = water = None
-            xe = ye = None
-            for _name, (dX, dY) in exp["disp"].items():
-                xe, ye = X0 + dX, Y0 + dY
-                judge = alive0 & active0 & exp["inside"] & np.isfinite(xe) & np.isfinite(ye)
-                co = judge & ((xe < xlo - eps) | (xe > xhi + eps) | (ye < ylo - eps) | (ye > yhi + eps))
-                clear_in = judge & (xe > xlo + eps) & (xe < xhi - eps) & (ye > ylo + eps) & (ye < yhi - eps)
-                ci = clear_in.copy()
-                ci[clear_in] = ~ref.near_tie(xe[clear_in], ye[clear_in])
-                ld = np.zeros(len(xe), dtype=bool)
-                ld[ci] = ~ref.at_sea(xe[ci], ye[ci])
-                wt = ci & ~ld
-                clear_out = co if clear_out is None else clear_out & co
-                land = ld if land is None else land & ld
-                water = wt if water is None else water & wt
-            alive1 = b["alive"].astype(bool)
-            bad = clear_out & alive1
-            if bad.any():
-                p = int(np.nonzero(bad)[0][0])
-                res.add(Violation("C09.not_killed", n, f"pid {a['pid'][p]} target ({xe[p]:.6f},{ye[p]:.6f}) outside the valid region",
-                                  f"alive at ({X1[p]:.6f},{Y1[p]:.6f})", "dead"))
-            bad = land & ((X1 != X0) | (Y1 != Y0))
-            if land.any():
-                res.probes["land_cancel"] += 1
-            if bad.any():
-                p = int(np.nonzero(bad)[0][0])
-                res.add(Violation("C09.land_move", n, f"pid {a['pid'][p]} target ({xe[p]:.6f},{ye[p]:.6f}) on land",
-                                  (X1[p], Y1[p]), f"unchanged ({X0[p]},{Y0[p]})"))
-            bad = land & ~alive1
-            if bad.any():
-                p = int(np.nonzero(bad)[0][0])
-                res.add(Violation("C09.land_move", n, f"pid {a['pid'][p]} target on land", "killed", "stays, alive"))
-            # a particle with a clear in-water target must not die in the tracker
-            bad = water & ~alive1
-            if bad.any():
-                p = int(np.nonzero(bad)[0][0])
-                res.add(Violation("C09.killed_in_water", n, f"pid {a['pid'][p]} target ({xe[p]:.6f},{ye[p]:.6f}) in open water",
-                                  "dead after the move", "alive"))
-        # ---- records: a pid that left the records never returns; killed particles are absent afterwards
-        R = readback.Records(readback.list_output_files(d))
-        gone: dict[int, int] = {}
-        seen: set[int] = set()
-        dt = truth.dt_s(sc)
-        for k, r in enumerate(R.recs):
-            if r["layout"] == "sparse":
-                members = set(np.asarray(r["data"]["pid"]).astype(int).tolist())
-            else:
-                members = set(readback.dense_members(r).tolist())
-            st = int(truth.sgn(sc) * (r["time"] - truth.t_start(sc)) / np.timedelta64(1, "s")) // dt
-            back = [p for p in members if p in gone]
-            if back:
-                res.add(Violation("C09.resurrected", st, f"record {k}", f"pids {back} absent since record {gone[back[0]]} reappear",
-                                  "never"))
-            late = [p for p in members if p in killed_by_move and st > killed_by_move[p]]
-            if late:
-                res.add(Violation("C09.not_killed", st, f"record {k}", f"pids {late} killed by leaving the grid at steps "
-                                  f"{[killed_by_move[p] for p in late]} still present", "absent"))
-            for p in seen - members:
-                gone.setdefault(p, k)
-            seen |= members
-        res.nontrivial = bool(res.probes["land_cancel"] or res.probes["out_of_grid_kill"] or res.probes["inactive"])
+        res.history_key = "|".join(map(str, (hash(str(sc["grid"].get("mask"))) % 99991, scheme, diffusion,
+                                             bool(plan.get("warm"))))) + "|" + abstract_history(run, sc)
+        check_run(res, sc, run, d, "out", store, ref, truth.t_start(sc), diffusion, scheme)
+        # ---- the same invariants for a run warm-started from the first completed file of this one
+        files = readback.list_output_files(d)
+        if plan.get("warm") and run.error is None and len(files) >= 2:
+            first = readback.OutFile(files[0])
+            if first.nrec == sc["output"]["numrec"] and first.nrec:
+                store2: dict = {}
+                monitor2, _ = c01.make_monitor(sc, store2)
+                run2 = driver.run_scenario(sc, d, write=False, warm_file=str(files[0]), out_name="warm_001.nc",
+                                           cfg_name="warm", monitors=[] if diffusion else [monitor2],
+                                           rng_seed=truth.dt_s(sc) + 1)
+                account_run(res, run2, sc)
+                check_run(res, sc, run2, d, "warm", store2, ref, first.times[-1], diffusion, scheme)
+                if run2.error is None:
+                    res.probes["warm_start"] += 1
     finally:
         world.rm_dir(d)
     return res
+
+
+def check_run(res: Result, sc, run, d, stem: str, store: dict, ref, t_zero, diffusion: bool, scheme: str) -> None:
+    v, foreign = crash_violation(ID, run, ANCHORS)
+    if v is not None:
+        res.add(v)
+    if foreign:
+        res.aborted_foreign += 1
+    rec = run.rec
+    mask = truth.mask_rho(sc)
+    if sc["grid"].get("mask", "open") != "open":
+        res.probes["channel_or_island"] += 1
+    if diffusion:
+        res.probes["diffusion"] += 1
+    # ---- safety invariants on every snapshot after the move and after the IBM
+    dead_since: dict[int, int] = {}
+    for s in rec.snaps:
+        if s["label"] not in ("tracker.post", "ibm.post", "output.pre", "forcing.post"):
+            continue
+        X, Y = s["vars"]["X"].astype(float), s["vars"]["Y"].astype(float)
+        alive = s["vars"]["alive"].astype(bool)
+        pid = s["vars"]["pid"]
+        res.feed(X, Y, alive)
+        fin = np.isfinite(X) & np.isfinite(Y)
+        if (alive & ~fin).any():
+            p = int(np.nonzero(alive & ~fin)[0][0])
+            res.add(Violation("C09.nonfinite", s["step"], f"{s['label']} pid {pid[p]}", (X[p], Y[p]), "finite"))
+            continue
+        ok = alive & fin
+        inside = np.zeros(len(X), dtype=bool)
+        inside[ok] = ref.in_valid(X[ok], Y[ok])
+        if (ok & ~inside).any():
+            p = int(np.nonzero(ok & ~inside)[0][0])
+            res.add(Violation("C09.outside", s["step"], f"{s['label']} pid {pid[p]} alive at ({X[p]:.6f},{Y[p]:.6f})",
+                              "outside the valid region", truth.valid_region(sc)))
+        chk = ok & inside
+        chk[chk] = ~ref.near_tie(X[chk], Y[chk])
+        sea = np.ones(len(X), dtype=bool)
+        sea[chk] = ref.at_sea(X[chk], Y[chk])
+        if (~sea).any():
+            p = int(np.nonzero(~sea)[0][0])
+            res.add(Violation("C09.on_land", s["step"], f"{s['label']} pid {pid[p]} alive at ({X[p]:.6f},{Y[p]:.6f})",
+                              "land cell", "sea cell"))
+        for q, a in zip(pid.tolist(), alive.tolist()):
+            if not a:
+                dead_since.setdefault(int(q), s["step"])
+            elif q in dead_since:
+                res.add(Violation("C09.resurrected", s["step"], f"{s['label']} pid {q}",
+                                  f"alive again (dead since step {dead_since[q]})", "dead stays dead"))
+    # ---- the decision of every step, diffusion off
+    pre = rec.snap_by_step("tracker.pre")
+    post = rec.snap_by_step("tracker.post")
+    xlo, xhi, ylo, yhi = truth.valid_region(sc)
+    killed_by_move: dict[int, int] = {}
+    for n in sorted(pre):
+        if n not in post or post[n]["n"] != pre[n]["n"]:
+            continue
+        a, b = pre[n]["vars"], post[n]["vars"]
+        X0, Y0, X1, Y1 = a["X"], a["Y"], b["X"], b["Y"]
+        alive0, active0 = a["alive"].astype(bool), a["active"].astype(bool)
+        inact = alive0 & ~active0
+        if inact.any():
+            res.probes["inactive"] += 1
+            moved = inact & ((X1 != X0) | (Y1 != Y0))
+            if moved.any():
+                p = int(np.nonzero(moved)[0][0])
+                res.add(Violation("C09.inactive_moved", n, f"pid {a['pid'][p]}", (X1[p], Y1[p]), (X0[p], Y0[p])))
+        lost = alive0 & ~b["alive"].astype(bool)
+        for q in a["pid"][lost].tolist():
+            killed_by_move.setdefault(int(q), n)
+        if lost.any():
+            res.probes["out_of_grid_kill"] += 1
+        if diffusion or n not in store:
+            continue
+        exp = store[n]
+        if not exp["inside"].all():
+            res.probes["rk_stage_outside"] += 1
+        # "RK2"/"RK4" name families: a decision is judged only where every named tableau of the order agrees
+        eps = 1e-6
+        clear_out = land = water = None
+        xe = ye = None
+        for _name, (dX, dY) in exp["disp"].items():
+            xe, ye = X0 + dX, Y0 + dY
+            judge = alive0 & active0 & exp["inside"] & np.isfinite(xe) & np.isfinite(ye)
+            co = judge & ((xe < xlo - eps) | (xe > xhi + eps) | (ye < ylo - eps) | (ye > yhi + eps))
+            clear_in = judge & (xe > xlo + eps) & (xe < xhi - eps) & (ye > ylo + eps) & (ye < yhi - eps)
+            ci = clear_in.copy()
+            ci[clear_in] = ~ref.near_tie(xe[clear_in], ye[clear_in])
+            ld = np.zeros(len(xe), dtype=bool)
+            ld[ci] = ~ref.at_sea(xe[ci], ye[ci])
+            wt = ci & ~ld
+            clear_out = co if clear_out is None else clear_out & co
+            land = ld if land is None else land & ld
+            water = wt if water is None else water & wt
+        alive1 = b["alive"].astype(bool)
+        bad = clear_out & alive1
+        if bad.any():
+            p = int(np.nonzero(bad)[0][0])
+            res.add(Violation("C09.not_killed", n, f"pid {a['pid'][p]} target ({xe[p]:.6f},{ye[p]:.6f}) outside the valid region",
+                              f"alive at ({X1[p]:.6f},{Y1[p]:.6f})", "dead"))
+        bad = land & ((X1 != X0) | (Y1 != Y0))
+        if land.any():
+            res.probes["land_cancel"] += 1
+        if bad.any():
+            p = int(np.nonzero(bad)[0][0])
+            res.add(Violation("C09.land_move", n, f"pid {a['pid'][p]} target ({xe[p]:.6f},{ye[p]:.6f}) on land",
+                              (X1[p], Y1[p]), f"unchanged ({X0[p]},{Y0[p]})"))
+        bad = land & ~alive1
+        if bad.any():
+            p = int(np.nonzero(bad)[0][0])
+            res.add(Violation("C09.land_move", n, f"pid {a['pid'][p]} target on land", "killed", "stays, alive"))
+        # a particle with a clear in-water target must not die in the tracker
+        bad = water & ~alive1
+        if bad.any():
+            p = int(np.nonzero(bad)[0][0])
+            res.add(Violation("C09.killed_in_water", n, f"pid {a['pid'][p]} target ({xe[p]:.6f},{ye[p]:.6f}) in open water",
+                              "dead after the move", "alive"))
+    # ---- records: a pid that left the records never returns; killed particles are absent afterwards
+    R = readback.Records(readback.list_output_files(d, stem))
+    gone: dict[int, int] = {}
+    seen: set[int] = set()
+    dt = truth.dt_s(sc)
+    for k, r in enumerate(R.recs):
+        if r["layout"] == "sparse":
+            members = set(np.asarray(r["data"]["pid"]).astype(int).tolist())
+        else:
+            members = set(readback.dense_members(r).tolist())
+        st = int(truth.sgn(sc) * (r["time"] - t_zero) / np.timedelta64(1, "s")) // dt
+        back = [p for p in members if p in gone]
+        if back:
+            res.add(Violation("C09.resurrected", st, f"record {k}", f"pids {back} absent since record {gone[back[0]]} reappear",
+                              "never"))
+        late = [p for p in members if p in killed_by_move and st > killed_by_move[p]]
+        if late:
+            res.add(Violation("C09.not_killed", st, f"record {k}", f"pids {late} killed by leaving the grid at steps "
+                              f"{[killed_by_move[p] for p in late]} still present", "absent"))
+        for p in seen - members:
+            gone.setdefault(p, k)
+        seen |= members
+    res.nontrivial = res.nontrivial or bool(res.probes["land_cancel"] or res.probes["out_of_grid_kill"] or res.probes["inactive"])
+
